@@ -1,7 +1,14 @@
-(* C13 — listings: a count-limited listing returns at most that many entries.  DESIGN.md §3 C13. *)
+(* C13 — the namespace is a well-formed tree; listings agree with lookups.
+   PROVED for every history of filesystem-level calls (any length; plain configuration; the root itself is never
+   removed or renamed onto): the live rows form a tree (unique names, every entry but the root has a live parent
+   that is a directory, names are cleaned absolute) — C13_tree_all_histories; every directory listing exists and is
+   exactly the live rows directly below the directory, each once, and every count-limited listing is a prefix of it
+   of at most that length — C13_listing_all_histories; the walk from the root shows exactly the live rows, each once
+   (down to the walk's depth 16) — C13_walk_all_histories.  Proofs/T13*.v.  C13_limit is the bare limit law, for any
+   index.  Agreement of listings with Stat/Open on the implementation is decided by the walk oracle. *)
 From Coq Require Import List NArith ZArith Bool Lia.
 Import ListNotations.
-From STFS Require Import Str Db Tape Index Ops Fs StrLemmas.
+From STFS Require Import Str Db Tape Index Ops Fs Diff Norm StrLemmas C01Str C01Fs2 C01Rows T13Def T13List T13View T13Tree.
 Open Scope N_scope.
 
 Theorem C13_limit : forall p name k l,
@@ -20,4 +27,33 @@ Proof.
   - left. rewrite firstn_length. lia.
 Qed.
 
+Theorem C13_tree_all_histories : forall c e r, 0 < c_rs c -> c_readonly c = false -> c_csuf c = [] -> c_esuf c = [] ->
+  forallb hb_ok ((CInitialize [slash], e) :: r) = true ->
+  forallb (fun ke => call_ok (fst ke)) r = true -> forallb (fun ke => fs_call (fst ke)) r = true ->
+  wf_tree (db (final c init_sys ((CInitialize [slash], e) :: r))).
+Proof. exact T13_wf_all_histories. Qed.
+
+Theorem C13_listing_all_histories : forall c e r, 0 < c_rs c -> c_readonly c = false -> c_csuf c = [] -> c_esuf c = [] ->
+  forallb hb_ok ((CInitialize [slash], e) :: r) = true ->
+  forallb (fun ke => call_ok (fst ke)) r = true -> forallb (fun ke => fs_call (fst ke)) r = true ->
+  let p := db (final c init_sys ((CInitialize [slash], e) :: r)) in
+  forall d, good d ->
+    exists l, snd (get_direct_children p d None) = Ok l /\
+      l = filter (fun x => live x && negb (eqb_str (r_name x) [slash]) && eqb_str (path_dir (r_name x)) d) (rows p) /\
+      NoDup (map r_name l) /\
+      (forall x, In x l <-> (In x (lrows p) /\ r_name x <> [slash] /\ path_dir (r_name x) = d)) /\
+      (forall k lk, snd (get_direct_children p d (Some k)) = Ok lk -> exists j, (j <= k)%nat /\ lk = firstn j l).
+Proof. exact T13_listing_all_histories. Qed.
+
+Theorem C13_walk_all_histories : forall c e r, 0 < c_rs c -> c_readonly c = false -> c_csuf c = [] -> c_esuf c = [] ->
+  forallb hb_ok ((CInitialize [slash], e) :: r) = true ->
+  forallb (fun ke => call_ok (fst ke)) r = true -> forallb (fun ke => fs_call (fst ke)) r = true ->
+  let s := final c init_sys ((CInitialize [slash], e) :: r) in
+  exists l, view c s = map (ent c s) l /\ NoDup l /\
+    forall x, In x l <-> (In x (lrows (db s)) /\ slash_count (r_name x) <= 16).
+Proof. exact T13_view_all_histories. Qed.
+
 Print Assumptions C13_limit.
+Print Assumptions C13_tree_all_histories.
+Print Assumptions C13_listing_all_histories.
+Print Assumptions C13_walk_all_histories.
